@@ -52,7 +52,9 @@ func genInstant(rng *mon.RNG, horizon int) time.Duration {
 	return d
 }
 
-func genRacing(rng *mon.RNG) (ctl []rstep, workers [][]rstep, parkCase bool) {
+func genRacing(rng *mon.RNG) (ctl []rstep, workers [][]rstep, hold bool) {
+	hold = rng.Bool()
+	var parkCase bool
 	ng := rng.Range(2, 6)
 	horizon := rng.Range(5, 20)
 	parkCase = rng.Chance(1, 3)
@@ -103,6 +105,9 @@ func genRacing(rng *mon.RNG) (ctl []rstep, workers [][]rstep, parkCase bool) {
 		}
 		evs[i].Off = evs[i].Off.Truncate(time.Second)
 		evs[i].Hook = rng.PickStr("wake", "wake", "arm")
+		if hold {
+			evs[i].Hook = rng.PickStr("timer", "timer", "timer", "wake", "arm")
+		}
 		for n := rng.Range(1, 2); n > 0; n-- {
 			o := rstep{}
 			switch r := rng.Intn(100); {
@@ -150,11 +155,11 @@ func genRacing(rng *mon.RNG) (ctl []rstep, workers [][]rstep, parkCase bool) {
 		sort.SliceStable(ws, func(i, j int) bool { return ws[i].Off < ws[j].Off })
 		workers = append(workers, ws)
 	}
-	return ctl, workers, parkCase
+	return ctl, workers, hold
 }
 
 func runRacing(t *testing.T, idx int, rng *mon.RNG) {
-	ctl, workers, _ := genRacing(rng)
+	ctl, workers, hold := genRacing(rng)
 	phase := time.Duration(rng.Intn(7200)) * time.Second
 	yield := rng.Intn(4)
 	var hs []string
@@ -169,10 +174,10 @@ func runRacing(t *testing.T, idx int, rng *mon.RNG) {
 	for g, ws := range workers {
 		line(g+1, ws)
 	}
-	desc := fmt.Sprintf("racing phase=%v yield=%d %s", phase, yield, strings.Join(hs, " | "))
+	desc := fmt.Sprintf("racing phase=%v yield=%d hold=%v %s", phase, yield, hold, strings.Join(hs, " | "))
 	rec.Begin(idx, desc)
-	w := &world{idx: idx, mode: "racing", history: hs, yield: yield, yieldRng: mon.NewRNG("c05-yield", idx)}
-	res := bubble(t, func() {
+	w := &world{idx: idx, mode: "racing", hold: hold, history: hs, yield: yield, yieldRng: mon.NewRNG("c05-yield", idx)}
+	res := bubble(t, w, func() {
 		time.Sleep(phase)
 		base := time.Now()
 		w.newCron()
